@@ -659,7 +659,10 @@ impl Property for C04 {
                         if due + sl >= w.close_t || due > tr.stats.sim_ms {
                             break;
                         }
-                        if srv_by(due + sl) || any_related_between(t0, due + sl) {
+                        // (each try is timed from the previous one, so wake latency accumulates: the k-th try may come as late
+                        // as the end of its window, and anything about the instance that arrives before that cancels it)
+                        let hi_k = due + (sl + 1) * k + 2;
+                        if srv_by(hi_k) || any_related_between(t0, hi_k) {
                             break;
                         }
                         expect.push(due);
@@ -903,7 +906,9 @@ impl Property for C05 {
                                 related.extend(m.find(host, wire::T_AAAA));
                             }
                         }
-                        if related.iter().any(|&i| m.recs[i].arrivals.iter().any(|a| a.ttl > 0 && a.t >= e && a.t <= e + sl)) {
+                        // (a goodbye read in that window counts too: it puts the record into its final second, in which the
+                        // daemon treats it as gone already - the known final-second behaviour - and the path taken differs)
+                        if related.iter().any(|&i| m.recs[i].arrivals.iter().any(|a| a.t >= e && a.t <= e + sl)) {
                             j.abstained += 1;
                             continue;
                         }
